@@ -76,9 +76,9 @@ func c06vars(root interface{}) jet.VarMap {
 
 func c06n(tier string) int {
 	if tier == "thorough" {
-		return 500000
+		return 3000000
 	}
-	return 12000
+	return 60000
 }
 
 type c06case struct {
